@@ -105,6 +105,8 @@ def in_model_domain(desc):
     import re
     if any(k is not None and re.match(r"ns\d+", k, flags=re.ASCII) for k in list(L.nsmap) + list(R.nsmap)):
         return False
+    if len(set(L.nsmap.values())) != len(L.nsmap):
+        return False        # two prefixes for one URI on the left root: open finding two-prefixes-one-uri-on-left-root
     for root in (L, R):
         top = set(root.nsmap.values())
         if any(set(e.nsmap.values()) - top for e in root.iter() if isinstance(e.tag, str)):
